@@ -94,7 +94,7 @@ def check(ctx):
         ctx.functions.add(repo.func_qual(f))
         ctx.consulted.add(f._module.relpath)
     ctx.floor("D-scope:functions", len(fns), 20)
-    found = defects.run(repo, fns, ("D1", "D3", "D4", "D5", "D6"))
+    found = defects.run(repo, fns, ("D1", "D1b", "D3", "D4", "D5", "D6"))
     # D4 through the typed handler field is exercised: require that the transmitIx call resolved
     bad = set()
     for fd in found:
